@@ -4,6 +4,7 @@ import (
 	"fmt"
 	"hash"
 	"runtime"
+	"strings"
 	"sync"
 
 	"github.com/ja7ad/otp"
@@ -223,6 +224,16 @@ func c01(r *ev.Run) {
 		for _, sk := range []uint64{1, 2, 10, 11, 255, 1 << 31, 1<<64 - 1} {
 			for _, per := range []uint64{0, 1, 30, 1<<64 - 1} {
 				cs = append(cs, c01Case{Secret: sp, Counter: sk, Digits: 6 + int(sk%5), Algo: int(sk % 3), Skew: sk, Period: per})
+			}
+		}
+		// spellings with exactly ONE lower-case letter (each distinct letter of the text once), and all but one
+		seenL := map[byte]bool{}
+		for i := 0; i < len(sp); i++ {
+			if sp[i] >= 'A' && sp[i] <= 'Z' && !seenL[sp[i]] {
+				seenL[sp[i]] = true
+				one := sp[:i] + string([]byte{sp[i] | 0x20}) + sp[i+1:]
+				rest := strings.ToLower(sp[:i]) + sp[i:i+1] + strings.ToLower(sp[i+1:])
+				cs = append(cs, c01Case{Secret: one, Counter: uint64(i), Digits: 6, Algo: i % 3}, c01Case{Secret: rest, Counter: uint64(i), Digits: 8, Algo: (i + 1) % 3})
 			}
 		}
 		// the exported defaults as an application may have assigned them: nil Param follows the HOTP default, explicit ones do not
